@@ -47,10 +47,12 @@ def index_obs(eng, world, part, tax, t, rax, cax, tag="", weighted=True):
     return [Obs(tag + "column_index", part.column_index, C.to_array(rows))]
 
 
-def two_d(eng, rows, cols, weighted=True, wire=False):
+def two_d(eng, rows, cols, weighted=True, wire=False, smoothed_first=False):
     from .wire import world_for
     world = world_for(eng, [rows, cols], wire)
     part = Cube(world.response(weighted=weighted, assume_weighted=True)).partitions[0]
+    if smoothed_first:
+        part.smoothed_column_index      # the smoothed index (default window) is read BEFORE the index it is computed from
     _, rax, cax = C.slice_axes(world)
     return index_obs(eng, world, part, None, None, rax, cax, weighted=weighted)
 
@@ -136,6 +138,7 @@ def specs(tier):
     add("wire cat3(0,2) x cat4(1,3)", "two_d", dict(rows=V("cat", "a", 3, (0, 2)), cols=V("cat", "b", 4, (1, 3)), wire=True))
     add("wire cat3 x mr3", "two_d", dict(rows=V("cat", "a", 3, (1,)), cols=V("mr", "b", 3), wire=True))
     add("wire mr3 x cat3", "two_d", dict(rows=V("mr", "a", 3), cols=V("cat", "b", 3, (3,)), wire=True))
+    add("wire cat x catdate(3 waves), smoothed index read first", "two_d", dict(rows=V("cat", "a", 2, (1,)), cols=V("catdate", "b", 3, (0,)), wire=True, smoothed_first=True))
     if tier == "thorough":
         add("wire mr3 x mr3", "two_d", dict(rows=V("mr", "a", 3), cols=V("mr", "b", 3), wire=True))
         add("wire cat5(0,3) x cat5(2,)", "two_d", dict(rows=V("cat", "a", 5, (0, 3)), cols=V("cat", "b", 5, (2,)), wire=True))
